@@ -712,3 +712,6 @@ RULES += [
     ("C10.SIGN", rule_sign, "parse: value = sign x (whole + minutes/60 + seconds/3600) as a linear form in the captured fields on every path"),
     ("C10.SIGNR", rule_sign_render, "render: separate leading sign, fields from the magnitude; no field after ':' can reach 60 (carry)"),
 ]
+
+# the text a driver emits for a number is num_to_str(current value, own format) on every history (no stale rendering)
+IMPORTS = [('C07', 'C07.META')]
